@@ -478,6 +478,13 @@ def install(E):
             n = E.l_len(P, lst)
             E.l_set_elems(P, lst, z3.Store(E.l_elems(P, lst), n, E.unwrap(x, lst.ekind)))
             E.l_set_len(P, lst, n + 1)
+            # ghost: objects of tracked classes remember the index (and the list) of their latest append.
+            # Pure instrumentation: no program value depends on it; it replaces an existential in membership invariants.
+            if lst.ekind.startswith("ref:") and lst.ekind[4:] in E.ghost_track and isinstance(x, Ref):
+                cls = lst.ekind[4:]
+                for key, sort, val in (("%s.$lastpos" % cls, IntS, n), ("%s.$lastlist" % cls, RefS, lst.t)):
+                    arr = E.heap_array(P, key, sort)
+                    P.heap[key] = z3.Store(arr, x.t, val)
             return [(P, NONE)]
         raise Unsupported("append on %r" % (lst,))
 
@@ -680,6 +687,40 @@ def install(E):
         return [(P, P.new("list", tuple(Str(f) for f in fields)))]
 
     # ------------------------------------------------------------------ spec functions
+    @reg("alloc", True)
+    def _alloc(E, P, ctx, x):
+        return [(P, Bool(z3.Select(E.alloc_arr(P), x.t)))]
+
+    @reg("unchanged", True)
+    def _unchanged(E, P, ctx, *keys):
+        """the named heap fields are exactly as in the pre-state"""
+        if P.old is None:
+            raise SpecError("unchanged() outside a postcondition")
+        ts = []
+        for k in keys:
+            k = k.concrete()
+            if k in P.heap or k in P.old.heap:
+                E.havoc_heap  # noqa
+                a1 = P.heap.get(k)
+                a0 = P.old.heap.get(k)
+                if a0 is None or a1 is None:
+                    if a0 is None and a1 is None:
+                        continue
+                    raise SpecError("unchanged(%s): field missing in one state" % k)
+                ts.append(a1 == a0)
+        return [(P, Bool(z3.And(*ts) if ts else z3.BoolVal(True)))]
+
+    @reg("isa", True)
+    def _isa(E, P, ctx, x, cls):
+        return [(P, Bool(z3.And(x.t != NULL, z3.Select(E.alloc_arr(P), x.t), E.type_is(P, x.t, cls.concrete()))))]
+
+    @reg("fresh", True)
+    def _fresh(E, P, ctx, x):
+        """allocated now, not allocated in the pre-state (old heap)"""
+        if P.old is None:
+            raise SpecError("fresh() outside a postcondition")
+        return [(P, Bool(z3.And(x.t != NULL, z3.Select(E.alloc_arr(P), x.t), z3.Not(z3.Select(E.alloc_arr(P.old), x.t)))))]
+
     @reg("implies", True)
     def _implies(E, P, ctx, a, b):
         return [(P, Bool(z3.Implies(E.truth(a, P), E.truth(b, P))))]
